@@ -133,6 +133,20 @@ theorem emit_correct_end_to_end' (a : Nat) (segs : List (List Sdk.Host))
   intro sub s s' hc hrun reserved A hA X hX t hrel hu S hS hloc
   exact flush_on_exec a sub hc reserved A hA X hX hrun t hrel hu S hS hloc
 
+/-- `emit_correct_end_to_end'` under a name without a prime (the audit of `check.py` reads theorem names
+from `#print axioms` output, where a trailing prime is ambiguous) -/
+theorem emit_correct_end_to_end_closed (a : Nat) (segs : List (List Sdk.Host))
+    (hwf : ∀ ops ∈ segs, ∀ op ∈ ops, Sdk.TopOK op)
+    (hbuild : (Sdk.run (Sdk.flat segs)).err = none) (fuel : Nat) (outs : List Int) (hsEnd : Sdk.HSt)
+    (hhost : (Sdk.hrun fuel outs (Sdk.flat segs)).final = some hsEnd) :
+    ∃ mids tsEnd, Sdk.RunSubs (Sdk.run (Sdk.flat segs)).subs (Sdk.St.init outs) mids tsEnd ∧
+      tsEnd.trace = hsEnd.trace ∧ tsEnd.outcomes = hsEnd.outcomes ∧ tsEnd.arrs = hsEnd.arrs ∧
+      (∀ h v, hsEnd.hregs h = some v →
+        ∃ r b, (Sdk.run (Sdk.flat segs)).mem.handles[h]? = some (r, b) ∧ tsEnd.regs r = some v) ∧
+      Sdk.ViewsOK fuel Sdk.Mem.init 0 0 (Sdk.HSt.init outs) segs mids ∧
+      AllFlushes (FlushOnExec' a) (Sdk.run (Sdk.flat segs)).subs (Sdk.St.init outs) mids :=
+  emit_correct_end_to_end' a segs hwf hbuild fuel outs hsEnd hhost
+
 /-! ### between two flushes -/
 
 /-- the registers the builder passes to the assembler as `reserved_registers`: the active R registers of
@@ -184,7 +198,6 @@ theorem scratch_dead_across_flushes {m : Sdk.Mem} {hs : Sdk.HSt} {ts : Sdk.St} (
   · exact ⟨fun r => rfl, fun n => by rw [← hmem]; exact hrel.arrs n,
       fun x => by rw [← hmem]; exact hrel.shmRegs x, by rw [← hmem]; exact hrel.outs,
       by rw [← hmem]; exact hrel.trace⟩
-
 
 /-! ### all flushes on one executor state -/
 
@@ -320,4 +333,137 @@ theorem program_on_exec (a : Nat) (segs : List (List Sdk.Host))
       obtain ⟨r, b, e1, e2, _⟩ := hinvE.rel.regs h v hv
       exact ⟨r, b, by rw [hmem']; exact e1, by rw [← hrelE.regs r]; exact e2⟩
 
+/-! ### non-vacuity: the hypotheses of `program_on_exec` hold for C05's demo program
+
+`toExecQ?` reads an assembled command as an executor instruction; it is only a way to COMPUTE a candidate
+`X` — `asmAll?` checks `A.map embed = X.map ofExecQ` itself, so nothing depends on `toExecQ?` being right. -/
+
+def toExecQ? : Asm.PCmd → Option Exec.Instr
+  | .instr mn [] ops =>
+    if mn = "set" then (match ops with | [.reg r, .lit v] => (Asm.toX? r).map (.set · v) | _ => none)
+    else if mn = "load" then
+      (match ops with
+       | [.reg r, .entry ad (.reg i)] => (Asm.toX? r).bind fun x => (Asm.toX? i).map fun y => .load x ad y
+       | _ => none)
+    else if mn = "store" then
+      (match ops with
+       | [.reg r, .entry ad (.reg i)] => (Asm.toX? r).bind fun x => (Asm.toX? i).map fun y => .store x ad y
+       | _ => none)
+    else if mn = "array" then (match ops with | [.reg r, .addr ad] => (Asm.toX? r).map (.array · ad) | _ => none)
+    else if mn = "add" then
+      (match ops with
+       | [.reg d, .reg x, .reg y] =>
+         (Asm.toX? d).bind fun d' => (Asm.toX? x).bind fun x' => (Asm.toX? y).map fun y' => .add d' x' y'
+       | _ => none)
+    else if mn = "addm" then
+      (match ops with
+       | [.reg d, .reg x, .reg y, .reg md] =>
+         (Asm.toX? d).bind fun d' => (Asm.toX? x).bind fun x' => (Asm.toX? y).bind fun y' =>
+           (Asm.toX? md).map fun m' => .addm d' x' y' m'
+       | _ => none)
+    else if mn = "jmp" then (match ops with | [.lit tg] => some (.jmp tg) | _ => none)
+    else if mn = "bez" then (match ops with | [.reg r, .lit tg] => (Asm.toX? r).map (.bez · tg) | _ => none)
+    else if mn = "bnz" then (match ops with | [.reg r, .lit tg] => (Asm.toX? r).map (.bnz · tg) | _ => none)
+    else if mn = "beq" then
+      (match ops with
+       | [.reg x, .reg y, .lit tg] => (Asm.toX? x).bind fun x' => (Asm.toX? y).map fun y' => .beq x' y' tg
+       | _ => none)
+    else if mn = "bne" then
+      (match ops with
+       | [.reg x, .reg y, .lit tg] => (Asm.toX? x).bind fun x' => (Asm.toX? y).map fun y' => .bne x' y' tg
+       | _ => none)
+    else if mn = "blt" then
+      (match ops with
+       | [.reg x, .reg y, .lit tg] => (Asm.toX? x).bind fun x' => (Asm.toX? y).map fun y' => .blt x' y' tg
+       | _ => none)
+    else if mn = "bge" then
+      (match ops with
+       | [.reg x, .reg y, .lit tg] => (Asm.toX? x).bind fun x' => (Asm.toX? y).map fun y' => .bge x' y' tg
+       | _ => none)
+    else if mn = "ret_reg" then (match ops with | [.reg r] => (Asm.toX? r).map .retReg | _ => none)
+    else if mn = "ret_arr" then (match ops with | [.addr ad] => some (.retArr ad) | _ => none)
+    else if mn = "qalloc" then (match ops with | [.reg r] => (Asm.toX? r).map .qalloc | _ => none)
+    else if mn = "qfree" then (match ops with | [.reg r] => (Asm.toX? r).map .qfree | _ => none)
+    else if mn = "meas" then
+      (match ops with
+       | [.reg q, .reg c] => (Asm.toX? q).bind fun q' => (Asm.toX? c).map fun c' => .meas q' c'
+       | _ => none)
+    else if mn ∈ Asm.q1Names then (match ops with | [.reg r] => (Asm.toX? r).map (.q1 mn ·) | _ => none)
+    else none
+  | _ => none
+
+/-- a computed witness of `AsmAll` (each equation of `AsmAll` is CHECKED) -/
+def asmAll? : Sdk.Mem → List (List Sdk.Host) → Option (List (Option (List Exec.Instr)))
+  | _, [] => some []
+  | m, ops :: rest =>
+    match Sdk.emitOps m ops with
+    | .error _ => none
+    | .ok (m1, pend) =>
+      match Sdk.flush m1 pend with
+      | .error _ => none
+      | .ok (m2, none) => (asmAll? m2 rest).map (none :: ·)
+      | .ok (m2, some sub) =>
+        match Asm.assemble Gen.vanillaRows Gen.excTable Gen.numScratch (Bridge.tr sub) (reservedOf m2) with
+        | .error _ => none
+        | .ok A =>
+          match (A.map (Asm.embed Gen.vanillaRows)).mapM toExecQ? with
+          | none => none
+          | some X =>
+            if A.map (Asm.embed Gen.vanillaRows) = X.map Asm.ofExecQ then (asmAll? m2 rest).map (some X :: ·)
+            else none
+
+theorem asmAll?_sound : ∀ (segs : List (List Sdk.Host)) (m : Sdk.Mem) (Xs : List (Option (List Exec.Instr))),
+    asmAll? m segs = some Xs → AsmAll m segs Xs
+  | [], m, Xs, h => by simp [asmAll?] at h; simp [AsmAll, h]
+  | ops :: rest, m, Xs, h => by
+    simp only [asmAll?] at h
+    simp only [AsmAll]
+    split at h
+    · cases h
+    · rename_i m1 pend he
+
+      split at h
+      · cases h
+      · rename_i m2 hf
+        simp only [Option.map_eq_some_iff] at h
+        obtain ⟨Xr, hr, rfl⟩ := h
+        exact ⟨Xr, rfl, asmAll?_sound rest m2 Xr hr⟩
+      · rename_i m2 sub hf
+        split at h
+        · cases h
+        · rename_i A hA
+          split at h
+          · cases h
+          · rename_i X hX
+            split at h
+            · rename_i heq
+              simp only [Option.map_eq_some_iff] at h
+              obtain ⟨Xr, hr, rfl⟩ := h
+              exact ⟨A, X, Xr, rfl, hA, heq, asmAll?_sound rest m2 Xr hr⟩
+            · cases h
+
+/-- the empty application state with a one-qubit unit module, and a controller that holds it -/
+def demoT0 (outs : List Int) : Asm.State Asm.XMem :=
+  ⟨fun _ => none, ⟨fun _ => none, fun _ => none, fun _ => none, [none], [], outs, []⟩⟩
+
+def demoS0 (a : Nat) (outs : List Int) : Exec.State :=
+  { apps := fun k => if k = a then some (Asm.conc (demoT0 outs)).ap else none, used := [], reserved := [],
+    registry := [], oracle := outs, trace := [] }
+
+/-- **non-vacuity of `program_on_exec`**: for C05's demo program (nested loop / if / add / measurements,
+two flushes; `demo_hyps`: the builder accepts it and `HostSem` is defined) every flush assembles and
+reads as executor instructions, and the initial states exist -/
+theorem nonvacuous_program_on_exec (a : Nat) (outs : List Int) :
+    (∃ Xs, AsmAll Sdk.Mem.init demoSegs Xs) ∧
+    Bridge.Rel (Sdk.St.init outs) (demoT0 outs) ∧ Bridge.UnitOK (demoT0 outs).mem false ∧
+    (demoS0 a outs).apps a = some (Asm.conc (demoT0 outs)).ap ∧
+    (demoS0 a outs).loc (Asm.conc (demoT0 outs)).ap = Asm.conc (demoT0 outs) := by
+  refine ⟨?_, ⟨fun _ => rfl, fun _ => rfl, fun _ => rfl, rfl, rfl⟩,
+    ⟨by simp [demoT0], fun _ => rfl, fun e => by cases e⟩, by simp [demoS0], rfl⟩
+  have h : (asmAll? Sdk.Mem.init demoSegs).isSome = true := by decide +kernel
+  cases hx : asmAll? Sdk.Mem.init demoSegs with
+  | none => rw [hx] at h; cases h
+  | some Xs => exact ⟨Xs, asmAll?_sound _ _ _ hx⟩
+
 end NQ.C05
+
